@@ -271,7 +271,7 @@ struct TileSrc {
 
 pub fn c05(ctx: Arc<Ctx>) {
 	ctx.rule(
-		"real `versatiles serve` binary (best and --fast) with 8 sources (versatiles x 3 stored compressions x {pbf,png}, mbtiles, pmtiles); requests: Accept-Encoding absent + all 32 subsets of {gzip,br,deflate,identity,zstd} + all 20 ordered pairs, x case {lower,UPPER,Mixed} x weights {none,;q=1,;q=0.5} on a stored and an absent coordinate; \
+		"real `versatiles serve` binary (best and --fast) with 8 sources (versatiles x 3 stored compressions x {pbf,png}, mbtiles, pmtiles); requests: Accept-Encoding absent + all 32 subsets of {gzip,br,deflate,identity,zstd} + all 20 ordered pairs, x case {lower,UPPER,Mixed} x weights {none,;q=1,;q=0.5} on a stored and an absent coordinate (thorough: every ordered arrangement of every subset = 326 lists x 3 cases x weights {none,;q=1,;q=0.5,;q=0.001,; q=1.0,mixed per token} x separators {', ', ',', ' ,<tab>'}); \
 		 coordinate classes (stored, absent in range, x or y = 2^z, 2^32-1, z stored/absent/31/32/255/256, non-numeric parts, empty parts) x extension {none,.png,.pbf,.x} with 3 Accept-Encoding values; every request twice (cold/warm). raw HTTP/1.1 client over keep-alive connections. \
 		 non-trivial = distinct 200 responses whose Content-Encoding differs from the stored compression",
 	);
@@ -329,9 +329,31 @@ pub fn c05(ctx: Arc<Ctx>) {
 			}
 		}
 	}
-	let render_ae = |t: &[&str], case: u8, weight: u8| -> String {
+	if ctx.tier == Tier::Thorough {
+		// every ordered arrangement of every subset (326 lists instead of 33 subsets + 10 reversed pairs)
+		fn perms<'a>(rest: &[&'a str], cur: &mut Vec<&'a str>, out: &mut Vec<Option<Vec<&'a str>>>) {
+			if cur.len() >= 2 {
+				out.push(Some(cur.clone()));
+			}
+			for i in 0..rest.len() {
+				let mut r = rest.to_vec();
+				let t = r.remove(i);
+				cur.push(t);
+				perms(&r, cur, out);
+				cur.pop();
+			}
+		}
+		perms(&toks, &mut vec![], &mut aes);
+		aes.sort();
+		aes.dedup();
+	}
+	let n_weights: u8 = ctx.tier.pick(3, 6);
+	let n_seps: u8 = ctx.tier.pick(1, 3);
+	let render_ae = |t: &[&str], case: u8, weight: u8, sep: u8| -> String {
 		t.iter()
-			.map(|s| {
+			.enumerate()
+			.map(|(ti, s)| {
+				let weight = if weight == 5 { [1u8, 2, 3, 0, 4][ti % 5] } else { weight };
 				let s = match case {
 					1 => s.to_uppercase(),
 					2 => s.chars().enumerate().map(|(i, c)| if i % 2 == 0 { c.to_ascii_uppercase() } else { c }).collect(),
@@ -340,11 +362,13 @@ pub fn c05(ctx: Arc<Ctx>) {
 				match weight {
 					1 => format!("{s};q=1"),
 					2 => format!("{s};q=0.5"),
+					3 => format!("{s};q=0.001"),
+					4 => format!("{s}; q=1.0"),
 					_ => s,
 				}
 			})
 			.collect::<Vec<_>>()
-			.join(", ")
+			.join([", ", ",", " ,\t"][sep as usize])
 	};
 	let ov = |v: &[&str]| -> Vec<String> { ["--override-input-compression", "gzip"].iter().chain(v.iter()).map(|s| s.to_string()).collect() };
 	for (mode, extra) in [("best", vec![]), ("fast", vec!["--fast".to_string()]), ("flip-y", vec!["--flip-y".to_string()]), ("swap-xy", vec!["--swap-xy".to_string()]), ("override", ov(&[])), ("override flip-y", ov(&["--flip-y"])), ("override swap-xy fast", ov(&["--swap-xy", "--fast"]))] {
@@ -434,17 +458,19 @@ pub fn c05(ctx: Arc<Ctx>) {
 			// 1. content negotiation on a stored and an absent coordinate
 			for ae in aer.iter() {
 				for case in 0..3u8 {
-					for weight in 0..3u8 {
-						if ae.is_none() && (case > 0 || weight > 0) {
-							continue;
-						}
-						let aev = ae.as_ref().map(|t| render_ae(t, case, weight));
-						if !matches!(mode, "best" | "fast" | "override flip-y") && (case > 0 || weight > 0) {
-							continue;
-						}
-						judge(&format!("/tiles/{}/{}", s.id, tf((3, 1, 2))), aev.clone(), Some((3, 1, 2)), true, false);
-						if case == 0 && weight == 0 {
-							judge(&format!("/tiles/{}/3/4/4", s.id), aev, None, true, false);
+					for weight in 0..n_weights {
+						for sep in 0..n_seps {
+							if ae.is_none() && (case > 0 || weight > 0 || sep > 0) {
+								continue;
+							}
+							let aev = ae.as_ref().map(|t| render_ae(t, case, weight, sep));
+							if !matches!(mode, "best" | "fast" | "override flip-y") && (case > 0 || weight > 0 || sep > 0) {
+								continue;
+							}
+							judge(&format!("/tiles/{}/{}", s.id, tf((3, 1, 2))), aev.clone(), Some((3, 1, 2)), true, false);
+							if case == 0 && weight == 0 && sep == 0 {
+								judge(&format!("/tiles/{}/3/4/4", s.id), aev, None, true, false);
+							}
 						}
 					}
 				}
